@@ -1,8 +1,13 @@
 package gen
 
 import (
+	"archive/zip"
+	"bytes"
 	"encoding/binary"
 	"fmt"
+	"hash/crc32"
+
+	"google.golang.org/protobuf/encoding/protowire"
 
 	"verif/sim"
 )
@@ -136,4 +141,127 @@ func ZipHeaderFault(t *sim.T, z []byte) ([]byte, string) {
 		binary.LittleEndian.PutUint32(out[p+24:], uint32(t.Choose(1<<20)))
 		return out, "wrong uncompressed size"
 	}
+}
+
+// ZipForgedSizes builds the archive with one member whose declared sizes lie (a central directory
+// entry and local header written with CreateRaw): uncompressed sizes of 2^63, 2^62, 2^40, 2^32+5, one
+// more or one less than the truth, or zero. Members are stored.
+func ZipForgedSizes(t *sim.T, f *Feed, o ZipOpts) ([]byte, string) {
+	if len(f.Tables) == 0 {
+		return nil, ""
+	}
+	victim := t.Choose(len(f.Tables))
+	var buf bytes.Buffer
+	zw := zip.NewWriter(&buf)
+	desc := ""
+	for i, tb := range f.Tables {
+		body := tb.CSV(o.CRLF, o.BOM && i == 0)
+		if i != victim {
+			w, err := zw.CreateHeader(&zip.FileHeader{Name: tb.Name, Method: zip.Store})
+			if err != nil {
+				panic("harness: zip: " + err.Error())
+			}
+			w.Write(body)
+			continue
+		}
+		truth := uint64(len(body))
+		lie := []uint64{1 << 63, 1 << 62, 1 << 40, 1<<32 + 5, truth + 1, truth - 1, 0, ^uint64(0)}[t.Choose(8)]
+		if truth == 0 && lie == truth-1 {
+			lie = 7
+		}
+		h := &zip.FileHeader{Name: tb.Name, Method: zip.Store, CRC32: crc32.ChecksumIEEE(body), CompressedSize64: truth, UncompressedSize64: lie}
+		w, err := zw.CreateRaw(h)
+		if err != nil {
+			panic("harness: zip: " + err.Error())
+		}
+		w.Write(body)
+		desc = fmt.Sprintf("%s declares an uncompressed size of %d bytes (really %d)", tb.Name, lie, truth)
+	}
+	zw.Close()
+	return buf.Bytes(), desc
+}
+
+// ReorderWire re-serialises the top-level fields of a protobuf message in another order (entities
+// keep their relative order), optionally prepending an unknown field or writing a tag as an over-long
+// varint. The result is a different byte string for the same message: a non-canonical presentation.
+func ReorderWire(t *sim.T, b []byte) ([]byte, string) {
+	type fld struct {
+		num protowire.Number
+		raw []byte
+	}
+	var fields []fld
+	rest := b
+	for len(rest) > 0 {
+		num, typ, n := protowire.ConsumeTag(rest)
+		if n < 0 {
+			return b, ""
+		}
+		m := protowire.ConsumeFieldValue(num, typ, rest[n:])
+		if m < 0 {
+			return b, ""
+		}
+		fields = append(fields, fld{num, rest[:n+m]})
+		rest = rest[n+m:]
+	}
+	if len(fields) == 0 {
+		return b, ""
+	}
+	var out []byte
+	desc := ""
+	switch t.Choose(4) {
+	case 0: // header (and every non-entity field) last
+		for _, f := range fields {
+			if f.num == 2 {
+				out = append(out, f.raw...)
+			}
+		}
+		for _, f := range fields {
+			if f.num != 2 {
+				out = append(out, f.raw...)
+			}
+		}
+		desc = "entities before the header"
+	case 1: // header in the middle
+		k := 0
+		for _, f := range fields {
+			if f.num == 2 {
+				k++
+			}
+		}
+		at := 0
+		if k > 0 {
+			at = 1 + t.Choose(k)
+		}
+		seen := 0
+		for _, f := range fields {
+			if f.num == 2 {
+				out = append(out, f.raw...)
+				seen++
+				if seen == at {
+					for _, g := range fields {
+						if g.num != 2 {
+							out = append(out, g.raw...)
+						}
+					}
+				}
+			}
+		}
+		if k == 0 {
+			out = append([]byte(nil), b...)
+		}
+		desc = "header between entities"
+	case 2: // unknown field first
+		out = protowire.AppendTag(nil, 1999, protowire.VarintType)
+		out = protowire.AppendVarint(out, 42)
+		out = append(out, b...)
+		desc = "unknown field before the header"
+	default: // first tag as an over-long varint (0x8a 0x00 == 0x0a)
+		if len(b) > 0 && b[0] < 0x80 {
+			out = append([]byte{b[0] | 0x80, 0x00}, b[1:]...)
+			desc = "first tag written as a two-byte varint"
+		} else {
+			out = append([]byte(nil), b...)
+		}
+	}
+	return out, desc
 }
